@@ -225,11 +225,22 @@ func (m *Machine) ProcessPacket(out, packet []byte) ([]byte, *Result, error) {
 	// noise returns (cs1, cs2) where cs1 is the initiator->responder cipher.
 	// For 3-message patterns where a responder finishes by reading the final
 	// message, this ordering would be wrong; revisit when XX/pqIX lands.
+	// Snapshot the transcript hash so we can tell whether a failed ReadMessage
+	// left the noise state untouched. ChannelBinding aliases the library's
+	// internal buffer, so it must be copied.
+	binding := append([]byte(nil), m.hs.ChannelBinding()...)
 	msg, eKey, dKey, err := m.hs.ReadMessage(nil, packet[header.Len:])
 	if err != nil {
 		// Noise ReadMessage failed. The noise library checkpoints and rolls back
-		// on failure, so the Machine is still alive. The caller can retry with
-		// a different packet.
+		// on an authentication failure, but not on every error path: a message
+		// truncated after the ephemeral key, or carrying an invalid ephemeral
+		// key, returns after the key was already mixed into the transcript. A
+		// legitimate message can no longer be read in that state, so the
+		// Machine is unrecoverable. Otherwise the Machine is still alive and
+		// the caller can retry with a different packet.
+		if !bytes.Equal(binding, m.hs.ChannelBinding()) {
+			m.failed = true
+		}
 		return nil, nil, fmt.Errorf("noise ReadMessage: %w", err)
 	}
 
